@@ -16,6 +16,10 @@ key in order (`zipper`: `root.toList = p.before ++ x :: p.after`).
 Clone: `clone c = c` — in the value model a clone is a copy, so independence of the clone is
 immediate; that Go's `Clone` really copies the path slice is tied by the correspondence stream
 (every line prints Valid/Key of every cursor register; sharing the backing array is caught).
+
+`C03_current`: the navigation choices of the model (which child, which direction, the `HasNext`/`HasPrev`
+formula, truncation, `HasParent`/`Up`) are definitions of `Gen.Cursor`, regenerated from stree/cursor.go on
+every run by `extract/cursor.go`; the theorem pins each of them.
 -/
 namespace MdsVerif.Props.C03
 open MdsVerif.Model.Stree MdsVerif.Model.Cursor MdsVerif.Proofs.Cursor
@@ -139,14 +143,14 @@ theorem has_predicts (c : Cursor α) :
   refine ⟨hasNext_eq c, hasPrev_eq c, ?_, ?_, ?_⟩
   · cases c with
     | none => rfl
-    | some p => simp only [hasLeft, goLeft]; cases isNil (left p.cur) <;> rfl
+    | some p => simp only [hasLeft_def, goLeft_def]; cases isNil (left p.cur) <;> rfl
   · cases c with
     | none => rfl
-    | some p => simp only [hasRight, goRight]; cases isNil (right p.cur) <;> rfl
+    | some p => simp only [hasRight_def, goRight_def]; cases isNil (right p.cur) <;> rfl
   · cases c with
     | none => rfl
     | some p =>
-      simp only [hasParent, up]
+      simp only [hasParent_def, up_def]
       cases h : p.dirs with
       | nil => simp [valid]
       | cons d ds => simp [valid]
@@ -301,6 +305,61 @@ theorem C03_reachable_drv (d : MdsVerif.Drv.C03.S) (ops : List (MdsVerif.Model.C
 
 example : MdsVerif.Drv.C03.cmpDiv10 12 17 = .eq ∧ MdsVerif.Drv.C03.cmpDiv10 (-3) 7 = .eq ∧
     MdsVerif.Drv.C03.cmpNat 12 17 = .lt := by decide
+
+/-! ## the facts regenerated from stree/cursor.go -/
+
+/-- **C03_current.**  The facts regenerated from `stree/cursor.go` (`Gen.Cursor`, `extract/cursor.go`) are the
+pinned ones, and the extractor recognised the statement skeleton of every method of `Cursor`.
+`Model.Cursor` takes from these definitions: the child `findNext`/`findPrev` test first and the child link their
+walk-up loops compare with, the direction in which `Next`/`Prev`/`Min`/`Max` descend, the child `Left`/`Right`/
+`HasLeft`/`HasRight` look at, the `HasNext`/`HasPrev` formula, the truncation test and length of `Next`/`Prev`,
+`HasParent`'s test and `Up`'s new length — so the theorems above are about the choices that are in the source
+now.  The index expressions and bounds of the walk-up loop (`i := len(c.path) - 1`, `j := i - 1`, `for j >= 0`,
+`j--`, `return nil, -1`), `Valid`'s length test and `Key`'s index are pinned here without being wired (the
+model's `walkUp` is structural on the direction list).  A one-token change in any of them changes
+`Gen/Cursor.lean` and this theorem (and the `*_def` lemmas of `Proofs.Cursor`) no longer compile. -/
+theorem C03_current :
+    Gen.Cursor.recognised = true ∧
+    (∀ len, Gen.Cursor.validLen len = decide (len ≠ 0)) ∧
+    (∀ len, Gen.Cursor.curIdx len = len - 1) ∧
+    -- findNext, HasNext, Next
+    (∀ len, Gen.Cursor.nextLast len = len - 1) ∧
+    Gen.Cursor.nextChildIsLeft = false ∧
+    Gen.Cursor.nextChildIdx = -1 ∧
+    (∀ i, Gen.Cursor.nextWalkStart i = i - 1) ∧
+    (∀ j, Gen.Cursor.nextWalkContinues j = decide (j ≥ 0)) ∧
+    Gen.Cursor.nextWalkIsLeft = true ∧
+    (∀ j, Gen.Cursor.nextWalkStep j = j - 1) ∧
+    Gen.Cursor.nextNotFound = -1 ∧
+    (∀ hasChild i, Gen.Cursor.hasNextOf hasChild i = (hasChild || decide (i ≥ 0))) ∧
+    Gen.Cursor.nextDescendIsLeft = true ∧
+    (∀ j, Gen.Cursor.nextTruncates j = decide (j ≥ 0)) ∧
+    (∀ j, Gen.Cursor.nextTruncLen j = j + 1) ∧
+    -- findPrev, HasPrev, Prev
+    (∀ len, Gen.Cursor.prevLast len = len - 1) ∧
+    Gen.Cursor.prevChildIsLeft = true ∧
+    Gen.Cursor.prevChildIdx = -1 ∧
+    (∀ i, Gen.Cursor.prevWalkStart i = i - 1) ∧
+    (∀ j, Gen.Cursor.prevWalkContinues j = decide (j ≥ 0)) ∧
+    Gen.Cursor.prevWalkIsLeft = false ∧
+    (∀ j, Gen.Cursor.prevWalkStep j = j - 1) ∧
+    Gen.Cursor.prevNotFound = -1 ∧
+    (∀ hasChild i, Gen.Cursor.hasPrevOf hasChild i = (hasChild || decide (i ≥ 0))) ∧
+    Gen.Cursor.prevDescendIsLeft = false ∧
+    (∀ j, Gen.Cursor.prevTruncates j = decide (j ≥ 0)) ∧
+    (∀ j, Gen.Cursor.prevTruncLen j = j + 1) ∧
+    -- HasLeft/Left, HasRight/Right, HasParent/Up, Min/Max
+    Gen.Cursor.hasLeftIsLeft = true ∧ Gen.Cursor.leftIsLeft = true ∧
+    Gen.Cursor.hasRightIsLeft = false ∧ Gen.Cursor.rightIsLeft = false ∧
+    (∀ len, Gen.Cursor.hasParentTest len = decide (len > 1)) ∧
+    (∀ len, Gen.Cursor.upLen len = len - 1) ∧
+    Gen.Cursor.minIsLeft = true ∧ Gen.Cursor.maxIsLeft = false :=
+  ⟨rfl, fun _ => rfl, fun _ => rfl,
+   fun _ => rfl, rfl, rfl, fun _ => rfl, fun _ => rfl, rfl, fun _ => rfl, rfl, fun _ _ => rfl, rfl, fun _ => rfl,
+   fun _ => rfl,
+   fun _ => rfl, rfl, rfl, fun _ => rfl, fun _ => rfl, rfl, fun _ => rfl, rfl, fun _ _ => rfl, rfl, fun _ => rfl,
+   fun _ => rfl,
+   rfl, rfl, rfl, rfl, fun _ => rfl, fun _ => rfl, rfl, rfl⟩
 
 /-! ## non-vacuity: a skewed search tree `4 → (1 → · , 3 → (2)) , 5` walked with the model -/
 
